@@ -3,7 +3,7 @@
 import json, os, shutil, sys
 prop, k, sid, needs, outcome = sys.argv[1:6]
 detail = sys.argv[6] if len(sys.argv) > 6 else ""
-src = "/tmp/seed_%s_out" % prop
+src = "%s_%s_out" % (os.environ.get("SEEDROOT", "/tmp/seed"), prop)
 dst = os.path.join(os.path.dirname(os.path.dirname(os.path.abspath(__file__))), "seeded", sid)
 os.makedirs(dst, exist_ok=True)
 shutil.copy(os.path.join(src, "patch%s.diff" % k), os.path.join(dst, "patch.diff"))
